@@ -46,7 +46,7 @@ def run(ctx):
     versions = [1, 2, 3, 4, 6, 7, 20] if tier == "thorough" else [1, 2, 7]
     for v in versions:
         for fname, F in facs:
-            for box in ([1, 3, 7, 10, 13] if tier == "thorough" else [1, 7, 10]):
+            for box in ([1, 3, 7, 10, 13, 20] if tier == "thorough" else [1, 7, 10, 20]):
                 for b in ([0, 1, 4] if tier == "thorough" else [0, 4]):
                     if v > 7 and (box != 10 or b != 4):
                         continue
@@ -58,6 +58,18 @@ def run(ctx):
         cases.append((v, fname, dict(facs)[fname], 10, 4, "default"))
     reqs, exps, metas = [], [], []
     gross = 0
+    shared_drawers = {}
+    ncase = [0]
+
+    def drawer_obj(cls, ratio):
+        # every other case re-uses ONE drawer object per (class, ratio) for all the images it is passed to - other symbols, box
+        # sizes and borders before: a drawer is (re)initialised per image, nothing of an earlier image may survive in it
+        ncase[0] += 1
+        if ncase[0] % 2:
+            return cls(size_ratio=Decimal(ratio))
+        if (cls, ratio) not in shared_drawers:
+            shared_drawers[(cls, ratio)] = cls(size_ratio=Decimal(ratio))
+        return shared_drawers[(cls, ratio)]
     for (v, fname, F, box, b, spec) in cases:
         is_path = fname in ("path", "pathfill")
         sq = D.SvgPathSquareDrawer if is_path else D.SvgSquareDrawer
@@ -70,13 +82,13 @@ def run(ctx):
             kw["module_drawer"] = spec
             md = {"circle": ("circle", 1, 1), "gapped-circle": ("circle", 4, 5), "gapped-square": ("square", 4, 5)}[spec]
         elif spec == "ratio0.5":
-            kw["module_drawer"] = ci(size_ratio=Decimal("0.5")); md = ("circle", 1, 2)
+            kw["module_drawer"] = drawer_obj(ci, "0.5"); md = ("circle", 1, 2)
         elif spec == "ratio0.65sq":
-            kw["module_drawer"] = sq(size_ratio=Decimal("0.65")); md = ("square", 13, 20)
+            kw["module_drawer"] = drawer_obj(sq, "0.65"); md = ("square", 13, 20)
         elif spec == "ratio1circle":
-            kw["module_drawer"] = ci(size_ratio=Decimal(1)); md = ("circle", 1, 1)
+            kw["module_drawer"] = drawer_obj(ci, "1"); md = ("circle", 1, 1)
         elif spec == "eye-circle":
-            kw["eye_drawer"] = ci(size_ratio=Decimal("0.8")); ed = ("circle", 4, 5)
+            kw["eye_drawer"] = drawer_obj(ci, "0.8"); ed = ("circle", 4, 5)
         data = gens.payload(rnd, rnd.choice(["lower", "digits", "bytes"]), rnd.randrange(1, 9) if v < 28 else 1200)
         q = qrcode.QRCode(version=v, border=b, box_size=box)
         q.add_data(data, optimize=0)
